@@ -116,6 +116,14 @@ def generate(rng, run, tier):
             o = H.gen_violating(rng, h2)[0]
     except H.CannotGenerate:
         o = None
+    if o is None and r < 0.9:
+        # a sampled sequence of the hint with exactly one bad item: the verdict depends on the draw, on both sides alike
+        try:
+            lh, lh2 = {'k': 'seq', 'o': 'list', 'a': [h]}, {'k': 'seq', 'o': 'list', 'a': [h2]}
+            o, _ = H.gen_one_bad(rng, lh2)
+            h, h2 = lh, lh2
+        except H.CannotGenerate:
+            o = None
     if o is None:
         o = H.gen_any_obj(rng, 2)
     base = {'is_color': False}
